@@ -429,12 +429,6 @@ func (cc *checkCtx) reportFailure(x *Exec, r *OblResult, inLedger bool) {
 	}
 }
 
-// replay tries to reproduce a counterexample on the real code. Returns the replay file.
-func (cc *checkCtx) replay(x *Exec, r *OblResult) (string, bool) {
-	path := cc.writeReplay(r.O.Name, "solver found a counterexample", r.Ans, r.O)
-	return path, false
-}
-
 func (cc *checkCtx) writeReplay(obl, why string, ans *SolverAnswer, o *Obligation) string {
 	dir := filepath.Join(cc.verifDir, "replays", cc.prop)
 	os.MkdirAll(dir, 0o755)
@@ -567,7 +561,7 @@ func (x *Exec) evalInputExpr(fn *ssa.Function, c *Contract, src string) (t *Term
 var _ = strings.Join
 
 func contractServes(c *Contract, prop string) bool {
-	if contains(c.Props, prop) || contains(c.FrameProps, prop) {
+	if contains(c.Props, prop) || contains(c.Props, prop+":safety") || contains(c.FrameProps, prop) {
 		return true
 	}
 	has := func(cl Clause) bool { return strings.HasPrefix(cl.Label, prop+".") }
